@@ -14,7 +14,7 @@ def overlap_class(pc):
 def run(tier):
     ck = common.Check("C09", tier)
     ck.rule = ("enums over u8 / i8 (whole domain, 256 values per program), i32 / u64 (every literal and range boundary +-1, MIN, MAX, random), &'static str and char; random literals, "
-               "range / half-open / or-patterns, overlapping and shadowed arms, payload catch-all, default case as probe / panic / Err; owned and by-ref, fallible and not; "
+               "range / half-open / or-patterns, overlapping and shadowed arms, payload catch-all, default case as probe / panic / Err, the designated / a trailing variant being an S-only #[ghost({..})] variant without literal; two primitive counterparts with default + dedicated literals or range patterns on one variant; owned and by-ref, fallible and not; "
                "From on every value vs a first-match reference, Into on every variant, round trip. distinct_nontrivial = distinct (primitive, arm-kind sequence, "
                "literals|patterns|mixed|catch-all, default mode, kind) programs with >=2 arms.")
     g = xgen.G(common.rng_for("C09", tier))
@@ -43,7 +43,8 @@ def run(tier):
         ck.count()
         cid = int(re.match(r"c(\d+)", e["case"]).group(1))
         pc = specs[cid]
-        key = [pc.prim, [a.kind for a in pc.arms] if not getattr(pc, "two", False) else sorted({v["form"] for v in pc.variants}), overlap_class(pc), (pc.default or {}).get("mode", "-"), e["conv"]]
+        key = [pc.prim, [a.kind for a in pc.arms] if not getattr(pc, "two", False) else sorted({v["form"] + ("/pattern" if v["w8"] else "") for v in pc.variants}), overlap_class(pc),
+               (pc.default or {}).get("mode", "-") + ("/ghost_variant_last" if getattr(pc, "tail_ghost", False) or (getattr(pc, "dflt_ghost", False) and (pc.default or {}).get("mode") == "probe") else ""), e["conv"]]
         ck.cell(key, nontrivial=len(pc.arms) >= 2)
         pr = e.get("probes", [])
         probes_ok = len(pr) % 2 == 0 and pr[:len(pr) // 2] == pr[len(pr) // 2:]
